@@ -285,7 +285,18 @@ const fn encode_segment_node(size: u32, next: u32) -> u64 {
 #[inline]
 pub const fn align_offset<T>(current_offset: u32) -> u32 {
   let alignment = core::mem::align_of::<T>() as u32;
-  (current_offset + alignment - 1) & !(alignment - 1)
+  (current_offset + (alignment - 1)) & !(alignment - 1)
+}
+
+/// Like [`align_offset`], but returns `None` when the aligned offset does not fit in a `u32`
+/// (possible when the arena is close to 4 GiB and the offset lies in its last few bytes).
+#[inline]
+pub(crate) const fn checked_align_offset<T>(current_offset: u32) -> Option<u32> {
+  let alignment = core::mem::align_of::<T>() as u32;
+  match current_offset.checked_add(alignment - 1) {
+    Some(offset) => Some(offset & !(alignment - 1)),
+    None => None,
+  }
 }
 
 #[cfg(feature = "std")]
@@ -401,16 +412,19 @@ macro_rules! impl_bytes_mut_utils {
       }
 
       // align relative to the accessible part of the buffer (`ptr_offset`), which is what `as_mut_ptr` is based on
-      let align_offset = crate::align_offset::<T>(self.allocated.ptr_offset + self.len as u32);
+      // (computed in u64: in an arena close to 4 GiB the aligned position may not fit in a u32)
+      let alignment = mem::align_of::<T>() as u64;
+      let position = self.allocated.ptr_offset as u64 + self.len as u64;
+      let align_offset = (position + (alignment - 1)) & !(alignment - 1);
 
       // the padding plus an aligned `T` must fit in what is left of the buffer
-      let required = (align_offset as u64 - self.len as u64 - self.allocated.ptr_offset as u64) + mem::size_of::<T>() as u64;
+      let required = (align_offset - position) + mem::size_of::<T>() as u64;
       let remaining = self.allocated.ptr_size as u64 - self.len as u64;
       if required > remaining {
         return Err(InsufficientBuffer::with_information(required, remaining));
       }
 
-      self.len = (align_offset - self.allocated.ptr_offset) as usize;
+      self.len = (align_offset - self.allocated.ptr_offset as u64) as usize;
       // SAFETY: We have checked the buffer size, and apply the align
       Ok(unsafe {
         core::ptr::NonNull::new_unchecked(self.as_mut_ptr().add(self.len).cast::<T>())
